@@ -27,7 +27,7 @@ def make_slurry(sp, Dp, max_index=100):
     return s
 
 
-def make_pipeline(rng, secs, sp, limited=None, record=None):
+def make_pipeline(rng, secs, sp, limited=None, record=None, offdesign=False):
     """record: a dict that receives the random choices made here (pump of every 'U' section, the slurry's own Dp), so
     that a reported input replays exactly; when it already holds them (a replay) they are used instead of the rng"""
     lst = []
@@ -45,6 +45,20 @@ def make_pipeline(rng, secs, sp, limited=None, record=None):
             p = copy.copy(src)
             if limited:
                 p.limited = limited
+            if offdesign:
+                # pumps away from their design state (reduced speed, trimmed impeller); recorded so an input replays
+                states = record.setdefault('pump_states', []) if record is not None else []
+                k = len(chosen) - 1
+                if k < len(states):
+                    fs, fi = states[k]
+                else:
+                    fs = rng.choice([1.0, rng.uniform(0.7, 1.0)])
+                    fi = rng.choice([1.0, rng.uniform(0.85, 1.0)])
+                    states.append([fs, fi])
+                if fs != 1.0:
+                    p.current_speed = fs * p.design_speed
+                if fi != 1.0:
+                    p.current_impeller = fi * p.design_impeller
             lst.append(p)
     if record is not None and 'slurry_Dp' in record:
         dp = record['slurry_Dp']
